@@ -43,8 +43,10 @@ Print Assumptions C14_ipv6_chars.
 (* Every file described by a syntax tree whose lines are valid -- blank lines, comments,
    lines with an interface suffix on the address, and mapping lines
        ws* address (ws+ name)* ws* [# comment]
-   with arbitrary ASCII white space, a well-formed address if any name or white space
-   follows it, and well-formed names -- reads as its meaning: each mapping line maps its
+   with arbitrary ASCII white space, a well-formed address if any name follows it (an
+   address-only line is valid whatever its field is: since 25db594 the reader ignores
+   "zzz ", "zzz #c" like "zzz" and "zzz#c"), and well-formed names -- reads as its meaning:
+   each mapping line maps its
    address to every name after it (relative to the root, lower case), '#' anywhere starts a
    comment, blank / comment / address-only lines and lines with an interface suffix
    contribute nothing, a later line replaces an earlier one per (name, family).
@@ -69,7 +71,23 @@ Theorem C14_parse_valid_line : forall l, wf_shape l -> line_contrib l <> CBad ->
 Proof. exact parse_valid_line. Qed.
 Print Assumptions C14_parse_valid_line.
 
-(* the first line that maps names but has a malformed address is an error ... *)
+(* a line that maps no names is ignored whatever its address field is (well-formed or not,
+   white space / a comment after it or not): the former finding
+   address-only-malformed-line-rejected, fixed by 25db594 *)
+Theorem C14_address_only_ignored : forall m, wf_mline m -> m_names m = [] ->
+  parse_line (render_line (Map m)) = Ok None.
+Proof. exact address_only_ignored. Qed.
+Print Assumptions C14_address_only_ignored.
+
+(* its witness "zzz \n1.2.3.4 foo" reads as the one mapping foo -> 1.2.3.4 *)
+Theorem C14_address_only_witness :
+  deserialise [122;122;122;32;10; 49;46;50;46;51;46;52;32;102;111;111]
+  = Ok {| h_v4 := [(ex_foo, 16909060)]; h_v6 := [] |}.
+Proof. exact ex_bad_address_only_ignored. Qed.
+Print Assumptions C14_address_only_witness.
+
+(* the first line that maps at least one name but has a malformed address is an error,
+   whatever the names are (the address error wins over a name error on the same line) ... *)
 Theorem C14_hosts_errors_address : forall f m e rest p names,
   Forall (fun le => valid_line (fst le)) f -> wf_line (Map m) -> Forall (fun le => wf_line (fst le)) rest ->
   m_names m = p :: names -> parse_ip (m_addr m) = None ->
